@@ -333,6 +333,9 @@ open_dump(kdump_ctx_t *ctx)
 
 	ctx->xlat->dirty = true;
 
+	/* Drop whatever a previously opened file has left behind. */
+	clear_volatile_attrs(ctx);
+
 	for (i = 0; i < ARRAY_SIZE(formats); ++i) {
 		ctx->shared->ops = formats[i];
 		ret = ctx->shared->ops->probe(ctx);
